@@ -58,6 +58,7 @@ OPS = (
     "insert", "insert_multiple", "update", "remove", "drop_measurement", "remove_all", "handle_remove_all", "update_all", "remove_everything",
     "insert_out_of_order", "insert_compact", "handle_insert", "insert_multiple3", "update_callable", "update_time", "remove_filtered", "handle_update", "update_unset",
     "remove_suffix", "remove_prefix", "remove_suffix2", "update_last", "update_first", "handle_remove_suffix",
+    "insert_ooo_then_count", "search_only",
 )
 
 
@@ -94,6 +95,13 @@ def run_op(db, op):
         db.measurement("m").update(qa, fields={"f": 9}, tags={"z": "1"})
     elif op == "update_unset":
         db.update(qa, unset_tags=["j", "k"], unset_fields="f")
+    elif op == "insert_ooo_then_count":  # the read after an out-of-order insert rebuilds the index (auto_index) or scans
+        db.insert(to_point(MP(T0 - 5, "m", {"k": "c"}, {"f": 7})))
+        db.count(TagQuery().k.exists())
+        db.get_timestamps()
+    elif op == "search_only":  # a pure read: scans storage or is served by the index
+        db.search(TagQuery().k == "a")
+        db.all()
     elif op == "remove_suffix":  # only the last stored row goes: no kept row changes position
         db.remove(TimeQuery() >= mk_time(T0 + 1_000_000))
     elif op == "remove_suffix2":
@@ -161,6 +169,10 @@ def outcomes(op):
         return [old, [p for p in old if p.m != "n"]]
     if op == "handle_remove_all":
         return [old, [p for p in old if p.m != "m"]]
+    if op == "insert_ooo_then_count":
+        return [old, old + [MP(T0 - 5, "m", {"k": "c"}, {"f": 7})]]
+    if op == "search_only":
+        return [old]
     if op in ("remove_suffix", "handle_remove_suffix"):
         return [old, old[:2]]
     if op == "remove_suffix2":
